@@ -205,8 +205,10 @@ func newApplyOptions(taskName string, eventChannel chan<- event.Event, serverSid
 		PrintFlags: &genericclioptions.PrintFlags{
 			OutputFormat: &emptyString,
 		},
-		// Server-side apply if flag set or server-side dry run.
-		ServerSideApply: strategy.ServerDryRun() || serverSideOptions.ServerSideApply,
+		// Server-side apply if flag set or server-side dry run. Never with
+		// client-side dry run: kubectl's server-side branch ignores the client
+		// dry-run strategy and would send a real apply patch.
+		ServerSideApply: strategy.ServerDryRun() || (serverSideOptions.ServerSideApply && !strategy.ClientDryRun()),
 		ForceConflicts:  serverSideOptions.ForceConflicts,
 		FieldManager:    serverSideOptions.FieldManager,
 		DryRunStrategy:  strategy.Strategy(),
